@@ -3,6 +3,7 @@ package props
 import (
 	"fmt"
 	"math/big"
+	"runtime/debug"
 	"testing"
 
 	"verif/corp"
@@ -46,6 +47,8 @@ func (it c02Item) key() string {
 // c02Compiled compiles the whole wrapper with gnark's real builder for the given proof system and
 // range-check mechanism and solves the honest witness.
 func c02Compiled(it c02Item) (bool, string, map[string]any) {
+	// a compiled whole circuit is several GB; give it back before the next item of this process starts
+	defer debug.FreeOSMemory()
 	in := wv.Load(it.Base, it.K)
 	kind := cs.R1CS
 	if it.Backend == "scs" {
@@ -226,14 +229,14 @@ func TestC02(t *testing.T) {
 		// compiled whole verifier: full proofs under the deployed configuration, prefixes under the others
 		// whole circuits compiled with gnark's builders cost ~1 M R1CS constraints (~2 GB) per query round on top of
 		// ~2 M: at most three rounds, and (below) all compiled items on two shards, one after the other
-		addC("A1", 3, eng.ModeCommit, "fixed", "r1cs")
+		addC("A1", 2, eng.ModeCommit, "fixed", "r1cs")
 		addC("B1", 2, eng.ModeCommit, "plain", "r1cs")
-		addC("A2", 2, eng.ModeCommit, "plain", "scs")
+		addC("A2", 1, eng.ModeCommit, "plain", "scs")
 		addC("B2", 1, eng.ModeNative, "plain", "scs")
 		for i, b := range corp.Names {
-			addC(b, 1+i%3, eng.ModeCommit, "plain", []string{"scs", "r1cs"}[i%2])
+			addC(b, 1+i%2*(i%3), eng.ModeCommit, "plain", []string{"scs", "r1cs"}[i%2]) // SCS (3x the constraints): one round only
 			if isA(b) {
-				addC(b, 2, eng.ModeCommit, "fixed", "scs")
+				addC(b, 1, eng.ModeCommit, "fixed", "scs")
 			}
 		}
 		for _, b := range corp.Names {
